@@ -39,6 +39,9 @@ func (c *cache) put(addr oid.Address, data []byte) error {
 		return ErrOutOfSpace
 	}
 
+	l := c.lockAddr(addr)
+	defer l.Unlock()
+
 	err := c.fsTree.Put(addr, data)
 	if err != nil {
 		return err
